@@ -297,6 +297,36 @@ class Monitors:
         tm = self.ns.tmod
         mon = self
         for cls, nm in ((tm.no_grad, "no_grad"), (tm.retain_grads, "retain_grads")):
+            if not (isinstance(cls, type) and hasattr(cls, "__enter__") and hasattr(cls, "__exit__")):
+                # a factory returning context managers (e.g. a @contextmanager function): wrap the factory wherever the library exposes it
+                def make_factory(orig, nm):
+                    class _Proxy:
+                        def __init__(self, inner):
+                            self._inner = inner
+
+                        def __enter__(self):
+                            r = self._inner.__enter__()
+                            mon.mode_events.append((nm, "__enter__", bool(tm.gradient__), bool(tm.retain_grads__)))
+                            mon.count("grad_mode_events")
+                            return r
+
+                        def __exit__(self, *a):
+                            try:
+                                return self._inner.__exit__(*a)
+                            finally:
+                                mon.mode_events.append((nm, "__exit__", bool(tm.gradient__), bool(tm.retain_grads__)))
+                                mon.count("grad_mode_events")
+
+                    @functools.wraps(orig)
+                    def factory(*a, **k):
+                        return _Proxy(orig(*a, **k))
+                    return factory
+                new = make_factory(cls, nm)
+                import sys as _sys
+                for modname, mod in list(_sys.modules.items()):
+                    if mod is not None and (modname == "synapgrad" or modname.startswith("synapgrad.")) and getattr(mod, nm, None) is cls:
+                        self._patch(mod, nm, new)
+                continue
             for meth in ("__enter__", "__exit__"):
                 orig = getattr(cls, meth)
 
